@@ -80,6 +80,57 @@ def seipd_retry(pt: bytes) -> bool:
     return outs[0] == outs[1] and (outs[0] is None) == (not rfc_accepts(pt, 8))
 
 
+LARGE = (8192, 8211, 8212, 8213, 16404, 24596)          # 8192*k + 20: the hashed part (everything but the 20 hash octets) is a multiple of 8192
+FLIPS = (None, 10, 100, 4000, 8000, -23, -30, 8190)
+
+
+def _seipd_large(n, pos):
+    pre = bytes(range(8)) + bytes([6, 7]) + bytes((i * 11 + 5) % 256 for i in range(n - 10 - 22))
+    import hashlib as _real_hashlib
+    import pgpy.packet.packets as _P
+    body = pre + b'\xd3\x14'
+    pt = bytearray(body + _real_hashlib.sha1(body).digest())       # (the stand-in digest is injective on short inputs only: the real SHA-1 here, natively)
+    if len(pt) != n:
+        return False
+    if pos is not None:
+        pt[pos if pos >= 0 else n + pos] ^= 1
+    Cipher.reset()
+    Cipher.adversarial = [bytes(pt)]
+    pkt = IntegrityProtectedSKEDataV1()
+    pkt.ct = bytearray(b'\x01\x02\x03')
+    saved = _P.hashlib
+    _P.hashlib = _real_hashlib
+    try:
+        out = pkt.decrypt(b'k' * 16, SymmetricKeyAlgorithm.CAST5)
+    except PGPDecryptionError:
+        return pos is not None
+    finally:
+        _P.hashlib = saved
+        Cipher.adversarial = None
+    return pos is None and bytes(out) == bytes(pt[10:])
+
+
+@ob('O4.1c', 'integrity-protected streams of several kilobytes, in particular of a length that is a multiple of 8192: the well-formed stream is accepted and returned, '
+             'the same stream with one changed octet anywhere before the hash is refused',
+    'stream length by symbolic index from {8192, 8211, 8212, 8213, 16404, 24596} (hashed part 8192*k and its neighbours); changed octet from {none, 10, 100, 4000, 8000, 8190, n-30, n-23}; concrete filler; real SHA-1; native per path',
+    cond_timeout={'q': 200, 't': 600})
+def seipd_large(li: int, pi: int) -> bool:
+    """
+    pre: 0 <= li < 6
+    pre: 0 <= pi < 8
+    post: _
+    """
+    a = b = 0
+    for k in range(6):
+        if li == k:
+            a = k
+    for k in range(8):
+        if pi == k:
+            b = k
+    with native():
+        return _seipd_large(LARGE[a], FLIPS[b])
+
+
 @ob('O4.1-short', 'integrity-protected data, decrypted strings shorter than prefix+MDC: never accepted unless the last 22 octets are D3 14 || hash of everything '
                   'before the hash (PGPy has no minimum-length check; such strings cannot be produced without the session key)',
     'pt\' symbolic, length 0..31 (block size 8)', cond_timeout={'q': 280, 't': 900},
@@ -396,7 +447,7 @@ def _good_pt(bs, tail=b'Z'):
     return pre + b'\xd3\x14' + inj_digest(pre + b'\xd3\x14')
 
 
-SANITY = ['passphrase_separation_odd(0, 1)', 'passphrase_separation_odd(3, 0)', 'passphrase_separation_odd(1, 8)', 'passphrase_separation_odd(9, 2)'] + ['seipd_accept(8, _good_pt(8, b"0123456789"))', 'seipd_accept(8, _good_pt(8, b"012345678") + b"x")', 'seipd_accept(16, _good_pt(16, b"01"))',
+SANITY = ['seipd_large(%d, %d)' % (l, p) for l in range(6) for p in (0, 3, 5)] + ['passphrase_separation_odd(0, 1)', 'passphrase_separation_odd(3, 0)', 'passphrase_separation_odd(1, 8)', 'passphrase_separation_odd(9, 2)'] + ['seipd_accept(8, _good_pt(8, b"0123456789"))', 'seipd_accept(8, _good_pt(8, b"012345678") + b"x")', 'seipd_accept(16, _good_pt(16, b"01"))',
           'seipd_accept(8, bytes(32))', 'seipd_short(b"")', 'seipd_short(bytes(31))', 'seipd_short(b"\\xd3\\x14" + bytes(20))', 'seipd_short(b"\\xd3\\x14\\xd3\\x14" + bytes(17) + b"\\x02")',
           'pkesk_accept(7, bytes(16), 0, 0, 0)', 'pkesk_accept(7, bytes(16), 0, 1, 0)', 'pkesk_accept(9, b"\\x01" * 32, 0, 32, 0)',
           'pkesk_accept(200, bytes(16), 0, 0, 0)', 'pkesk_accept(7, bytes(15), 0, 0, -1)', 'pkesk_accept(7, bytes(17), 0, 0, 1)',
